@@ -143,6 +143,12 @@ func (prop) Run(t *testing.T, tape *kernel.Tape, sc kernel.Scenario) *kernel.Res
 	patQ, _ := mkQuery("pat")
 	baseQ, _ := mkQuery("base")
 	callerQ, callerKeys := mkQuery("caller")
+	// an auth writer is part of the caller's side: what it sets overrides pattern and base path too
+	var authQ url.Values
+	var authKeys []string
+	if tape.Bool(3, "auth-writer") {
+		authQ, authKeys = mkQuery("auth")
+	}
 	pattern := patPath
 	if len(patQ) > 0 {
 		pattern += "?" + patQ.Encode()
@@ -230,6 +236,9 @@ func (prop) Run(t *testing.T, tape *kernel.Tape, sc kernel.Scenario) *kernel.Res
 	for k, v := range callerQ {
 		wantQ[k] = v
 	}
+	for k, v := range authQ {
+		wantQ[k] = v
+	}
 	offered := rtSchemes
 	if len(offered) == 0 {
 		offered = opSchemes
@@ -261,6 +270,14 @@ func (prop) Run(t *testing.T, tape *kernel.Tape, sc kernel.Scenario) *kernel.Res
 		w := &writer{path: values, order: ordered, query: callerQ, qkeys: callerKeys}
 		op := &runtime.ClientOperation{ID: "op", Method: "GET", PathPattern: pattern, Schemes: opSchemes, Params: w,
 			ProducesMediaTypes: []string{"application/json"}, ConsumesMediaTypes: []string{"application/json"}}
+		if authQ != nil {
+			op.AuthInfo = runtime.ClientAuthInfoWriterFunc(func(req runtime.ClientRequest, _ strfmt.Registry) error {
+				for _, k := range authKeys {
+					_ = req.SetQueryParam(k, authQ[k]...)
+				}
+				return nil
+			})
+		}
 		var got string
 		var gotErr error
 		var gotURL *url.URL
@@ -318,7 +335,11 @@ func (prop) Run(t *testing.T, tape *kernel.Tape, sc kernel.Scenario) *kernel.Res
 			}
 			gq, qerr := url.ParseQuery(gotURL.RawQuery)
 			if qerr != nil || gq.Encode() != wantQ.Encode() {
-				env.Violate("C10/query-wrong", queryClass(baseQ, patQ, callerQ), "query %q, reference %q (base %v, pattern %v, caller %v)", gotURL.RawQuery, wantQ.Encode(), baseQ, patQ, callerQ)
+				cls := queryClass(baseQ, patQ, callerQ)
+				if len(authQ) > 0 {
+					cls += "+auth-writer"
+				}
+				env.Violate("C10/query-wrong", cls, "query %q, reference %q (base %v, pattern %v, caller %v, auth writer %v)", gotURL.RawQuery, wantQ.Encode(), baseQ, patQ, callerQ, authQ)
 			}
 		} else if got != first {
 			env.Violate("C10/order-dependent", valueClass(values), "URL depends on the iteration order of the path parameters: order 0 gives %s, order %d gives %s", first, pi, got)
